@@ -133,9 +133,14 @@ def gen_atom(rng, alpha, regdefs, allow_dot):
 
 def gen_pat(rng, alpha, regdefs, depth, allow_dot, allow_nullable_body=False, top=True):
     nalt = 1 if rng.random() < 0.65 else rng.randint(2, 3)
+    wide = top and rng.random() < 0.03
+    if wide:
+        nalt = rng.randint(10, 14)      # two-digit alternative / term indices (keys built from the position stack)
     pat = []
     for _ in range(nalt):
         nterm = rng.choice([1, 1, 2, 2, 3, 4])
+        if wide and rng.random() < 0.2:
+            nterm = rng.randint(10, 13)
         alt = []
         for _ in range(nterm):
             k = rng.random()
